@@ -12,13 +12,22 @@
     (`coverage_form`; `coverage_form_crate` for the model function, which rejects `k < 2` and
     `n − k < 2`);
   * for the quantile interval `[s[lo], s[hi]]` of the sorted data, containing `ξ` is a statement
-    about the two counts `#{x ≤ ξ}` and `#{x < ξ}` (`quantile_form`).
+    about the two counts `#{x ≤ ξ}` and `#{x < ξ}` (`quantile_form`);
+  * a quantitative floor under the *exact* binomial coverage, for every `n ≥ 1`, every
+    `p ∈ [0,1]` and every critical value `z > 0` (§5): the Wilson interval covers `p` with probability
+    at least `1 − 1/z²` (`coverage_floor`, Chebyshev with the binomial variance `p(1−p)/n`), the
+    interval the crate returns with probability at least `1 − 1/z² −` the mass of the outcomes it
+    rejects (`coverage_floor_crate`), and the one-sided intervals cover at least as often as the
+    two-sided one at the same critical value (`coverage_one_sided_ge`).  This is far from the
+    nominal level (0.74 at z = 1.96) but it holds for all `n` and `p` at once; how close to nominal
+    the coverage actually is remains a numerical fact, evaluated exactly by the driver.
 
   `lowerR n k z` / `upperR n k z` are by definition
   `(wilsonCentre ⟨n⟩ ⟨k⟩ ⟨z⟩).val ∓ (wilsonSpan ⟨n⟩ ⟨k⟩ ⟨z⟩).val` (`Lemmas/WilsonMono.lean`).
 -/
 import StatsCI.Lemmas.WilsonMono
 import Mathlib.Algebra.BigOperators.Group.Finset.Basic
+import StatsCI.Lemmas.Binomial
 
 namespace StatsCI.C12
 open StatsCI Proportion WilsonMono
@@ -205,5 +214,87 @@ example : ∃ (h0 : 0 < (([3, 1, 2] : List ℤ).mergeSort (fun a b => decide (a 
     2 ≤ (([3, 1, 2] : List ℤ).mergeSort (fun a b => decide (a ≤ b)))[1] :=
   ⟨by rw [sorted_length]; decide, by rw [sorted_length]; decide,
    (quantile_form ([3, 1, 2] : List ℤ) 2 0 1 _ _).2.2.mpr (by decide)⟩
+
+/-! ### 5. a floor under the exact binomial coverage, for every `n`, `p` and `z` -/
+
+open Binomial in
+/-- **Coverage floor.**  `k ~ Bin(n, p)`: the Wilson interval `[lowerR n k z, upperR n k z]`
+    contains `p` with probability at least `1 − 1/z²`, whatever `n ≥ 1`, `p ∈ [0,1]`, `z > 0`. -/
+theorem coverage_floor (n : ℕ) (hn : 0 < n) (z p : ℝ) (hz : 0 < z) (hp0 : 0 ≤ p) (hp1 : p ≤ 1) :
+    1 - 1 / z ^ 2 ≤ ∑ k ∈ Finset.range (n + 1),
+      Binomial.pmf n k p * (if lowerR n k z ≤ p ∧ p ≤ upperR n k z then 1 else 0) := by
+  rw [coverage_form n hn z p hz.le]
+  exact Binomial.score_region_mass n (Nat.pos_iff_ne_zero.mp hn) hp0 hp1 hz
+
+/-- the weights are a probability distribution -/
+theorem pmf_is_distribution (n : ℕ) (p : ℝ) (hp0 : 0 ≤ p) (hp1 : p ≤ 1) :
+    (∀ k, 0 ≤ Binomial.pmf n k p) ∧ ∑ k ∈ Finset.range (n + 1), Binomial.pmf n k p = 1 :=
+  ⟨fun k => Binomial.pmf_nonneg n k hp0 hp1, Binomial.pmf_sum n hp0 hp1⟩
+
+/-- a coverage never exceeds one (so the floor is not met by an ill-normalised sum) -/
+theorem coverage_le_one (n : ℕ) (z p : ℝ) (hp0 : 0 ≤ p) (hp1 : p ≤ 1) :
+    ∑ k ∈ Finset.range (n + 1),
+      Binomial.pmf n k p * (if lowerR n k z ≤ p ∧ p ≤ upperR n k z then 1 else 0) ≤ 1 := by
+  refine le_trans (Finset.sum_le_sum (g := fun k => Binomial.pmf n k p) ?_) (Binomial.pmf_sum n hp0 hp1).le
+  intro k _
+  have := Binomial.pmf_nonneg n k hp0 hp1
+  split_ifs <;> simp <;> linarith
+
+/-- **Coverage floor for the model function** (`ci_wilson`, two-sided): the outcomes `k < 2` and
+    `k > n − 2`, which the crate rejects, are lost; nothing else is. -/
+theorem coverage_floor_crate (crit : Crit Rex) (l : Rex) (n : ℕ) (hn : 0 < n) (p : ℝ)
+    (hp0 : 0 ≤ p) (hp1 : p ≤ 1) (hv : Confidence.validLevel l = true)
+    (hz : 0 < (crit (.z (Confidence.twoSided l).quantile)).val) :
+    1 - 1 / (crit (.z (Confidence.twoSided l).quantile)).val ^ 2 - Binomial.edgeMass n p
+      ≤ ∑ k ∈ Finset.range (n + 1),
+        Binomial.pmf n k p * (if coversB crit (.twoSided l) n k p = true then 1 else 0) := by
+  rw [coverage_form_crate crit l n p _ hv hz.le]
+  exact Binomial.score_region_mass_inner n (Nat.pos_iff_ne_zero.mp hn) hp0 hp1 hz
+
+/-- at the same critical value a one-sided interval covers whenever the two-sided one does -/
+theorem coverage_one_sided_ge (crit : Crit Rex) (l : Rex) (n k : ℕ) (p : ℝ)
+    (hp0 : 0 ≤ p) (hp1 : p ≤ 1) (hv : Confidence.validLevel l = true)
+    (hzq : ∀ c : Confidence Rex, 0 ≤ (crit (.z c.quantile)).val)
+    (hsame : (crit (.z (Confidence.upper l).quantile)).val = (crit (.z (Confidence.twoSided l).quantile)).val ∧
+             (crit (.z (Confidence.lower l).quantile)).val = (crit (.z (Confidence.twoSided l).quantile)).val)
+    (h2 : coversB crit (.twoSided l) n k p = true) :
+    coversB crit (.upper l) n k p = true ∧ coversB crit (.lower l) n k p = true := by
+  by_cases hc : 2 ≤ k ∧ k + 2 ≤ n
+  · obtain ⟨i2, hi2, hd2⟩ := duality_interval crit (.twoSided l) n k hc.1 hc.2 hv (hzq _)
+    obtain ⟨iu, hiu, hdu⟩ := duality_interval crit (.upper l) n k hc.1 hc.2 hv (hzq _)
+    obtain ⟨il, hil, hdl⟩ := duality_interval crit (.lower l) n k hc.1 hc.2 hv (hzq _)
+    rw [coversB_of_ok hi2] at h2
+    rw [coversB_of_ok hiu, coversB_of_ok hil]
+    have hs := (hd2 p).mp h2
+    set z := (crit (.z (Confidence.twoSided l).quantile)).val with hzdef
+    have hz0 : 0 ≤ z := hzq _
+    have hn : (0 : ℝ) < n := by exact_mod_cast (by omega : 0 < n)
+    have hv0 : 0 ≤ p * (1 - p) / n := by
+      have : 0 ≤ 1 - p := by linarith
+      positivity
+    have habs : |p - k / n| ≤ z * Real.sqrt (p * (1 - p) / n) := by
+      have h1 : (p - k / n) ^ 2 ≤ z ^ 2 * (p * (1 - p) / n) := by
+        calc (p - k / n) ^ 2 ≤ z ^ 2 * (p * (1 - p)) / n := hs
+          _ = z ^ 2 * (p * (1 - p) / n) := by ring
+      have h2' := Real.abs_le_sqrt h1
+      rwa [Real.sqrt_mul (sq_nonneg z), Real.sqrt_sq hz0] at h2'
+    have hab := abs_le.mp habs
+    refine ⟨(hdu p hp1).mpr ?_, (hdl p hp0).mpr ?_⟩
+    · rw [hsame.1]; linarith [hab.1]
+    · rw [hsame.2]; linarith [hab.2]
+  · rw [coversB_outside crit _ n k p hc] at h2
+    exact absurd h2 (by simp)
+
+/-- the floor is not vacuous: `n = 10`, `p = 0.3`, `z = 2` — at least 3/4 of the mass is covered -/
+example : 1 - 1 / (2 : ℝ) ^ 2 ≤ ∑ k ∈ Finset.range (10 + 1),
+      Binomial.pmf 10 k 0.3 * (if lowerR (10 : ℕ) k 2 ≤ 0.3 ∧ 0.3 ≤ upperR (10 : ℕ) k 2 then 1 else 0) :=
+  coverage_floor 10 (by norm_num) 2 0.3 (by norm_num) (by norm_num) (by norm_num)
+
+example : 1 - 1 / ((constCrit 2 : Crit Rex) (.z (Confidence.twoSided (⟨0.95⟩ : Rex)).quantile)).val ^ 2
+      - Binomial.edgeMass 10 0.3
+    ≤ ∑ k ∈ Finset.range (10 + 1),
+      Binomial.pmf 10 k 0.3 * (if coversB (constCrit 2) (.twoSided ⟨0.95⟩) 10 k 0.3 = true then 1 else 0) :=
+  coverage_floor_crate (constCrit 2) ⟨0.95⟩ 10 (by norm_num) 0.3 (by norm_num) (by norm_num)
+    (by rw [validLevel_iff]; norm_num) (by norm_num [constCrit])
 
 end StatsCI.C12
